@@ -1133,6 +1133,27 @@ pub fn units() -> Vec<Unit> {
             IoMode(false),
         ],
     },
+    // `LoRa::get_rx_result` (lora-phy/src/lib.rs): which buffer / which length travel between the caller and the
+    // `RadioKind` (state-passing; the `RadioKind` methods are abstract: `RkOps`)
+    Unit {
+        module: "Gen.LoraRxFn",
+        file: "lora-phy/src/lib.rs",
+        more_files: vec!["lora-phy/src/mod_params.rs"],
+        imports: vec![],
+        items: vec![
+            Struct("DutyCycleParams"),
+            EnumData("RxMode"),
+            EnumData("RadioMode"),
+            Struct("PacketStatus"),
+            Struct("PacketParams"),
+            Raw(LORA_RX_RAW),
+            ExternStructRaw("RK", &[]),
+            ExternFnX("RK::get_rx_payload", "RkOps.get_rx_payload", &[("self", "RK"), ("rx_pkt_params", "PacketParams"), ("receiving_buffer", "[u8]")], "Result<u8, RadioError>", &["self", "receiving_buffer"], true),
+            ExternFnX("RK::get_rx_packet_status", "RkOps.get_rx_packet_status", &[("self", "RK")], "Result<PacketStatus, RadioError>", &["self"], true),
+            StructPartial("LoRa", &["radio_kind", "radio_mode"]),
+            Fn("LoRa::get_rx_result"),
+        ],
+    },
     ]
 }
 
@@ -1562,4 +1583,20 @@ const PLAN_SELECT_RAW2: &str = r#"/-- the bank walk `JoinChannels::get_next_chan
 class JcOps (RNG : Type) where
   get_next_channel : JoinChannels → RNG → Option (Int × JoinChannels × RNG)
 variable [JcOps RNG]
+"#;
+
+/// builder B: the `RadioKind` of `LoRa<RK, DLY>` as `get_rx_result` / `complete_rx` see it
+const LORA_RX_RAW: &str = r#"set_option warn.classDefReducibility false
+/-- the `RadioKind` of `LoRa<RK, DLY>`: its state type and the two methods the receive result is fetched with: `none` = a
+panic; the inner `Option` is the `Result` (`none` = `Err`); the driver state and (for `get_rx_payload`) the caller's
+buffer come back in both cases -/
+class RkOps where
+  RK : Type
+  [decRK : DecidableEq RK]
+  [reprRK : Repr RK]
+  get_rx_payload : RK → PacketParams → List Int → Option (Option Int × RK × List Int)
+  get_rx_packet_status : RK → Option (Option PacketStatus × RK)
+attribute [instance] RkOps.decRK RkOps.reprRK
+variable [K : RkOps]
+abbrev RK := K.RK
 "#;
